@@ -239,13 +239,16 @@ VCLAUSE(list_templates, 120, 12000, 250000, "lists differ in length or in one el
 	if(n >= 1)
 	{
 		int i1 = (int) s.range(0, n - 1);
+		int i1_arg = s.chance(0.25) ? -(int) s.range(1, 4) : i1;	 // a negative start index means "from the beginning"
+		if(i1_arg < 0)
+			i1 = 0;
 		unsigned i2 = (unsigned) s.range(i1, n + 1);
 		if(s.coin())
 			i2 = (unsigned) (s.coin() ? n - 1 : (s.coin() ? n : n + 1));
 		if((int) i2 < i1)
 			i2 = (unsigned) i1;
 		std::vector<int> sub;
-		VMUST_RETURN("Sub_List(" << i1 << "," << i2 << ") of " << n, sub = Sub_List(a, i1, i2));
+		VMUST_RETURN("Sub_List(" << i1_arg << "," << i2 << ") of " << n, sub = Sub_List(a, i1_arg, i2));
 		int hi = (int) std::min<unsigned>(i2, (unsigned) n - 1);
 		VCHECK((int) sub.size() == hi - i1 + 1, "Sub_List(" << i1 << "," << i2 << ") of a list of " << n << " has " << sub.size() << " elements, expected " << hi - i1 + 1);
 		for(int i = i1; i <= hi; i++)
@@ -337,4 +340,30 @@ VCLAUSE(summary_statistics, 420, 8000, 160000, "the data are shifted far from th
 	VMUST_RETURN("Weighted_Average", wq = Weighted_Average(dq));
 	VCLOSE(c, "weighted_average_definition", wq[0], (double) (swx / sw), 8 * EPS * 32, "sum(w x)/sum(w)");
 	VCHECK(wq[1] >= 0 && std::isfinite(wq[1]), "weighted standard error " << wq[1]);
+	// unequal weights: Cochran's ratio-variance formula in long double, and its translation / scaling behaviour
+	{
+		long double xw = swx / sw, wb = sw / N, s1 = 0, s2 = 0, s3 = 0;
+		for(auto& d : dq)
+		{
+			long double a1 = (long double) d.weight * d.value - wb * xw, a2 = (long double) d.weight - wb;
+			s1 += a1 * a1;
+			s2 += a2 * a1;
+			s3 += a2 * a2;
+		}
+		long double se2 = (long double) N / (N - 1) / (sw * sw) * (s1 - 2 * xw * s2 + xw * xw * s3);
+		double se = (double) sqrtl(std::max(se2, 0.0L));
+		VCLOSE(c, "weighted_standard_error_definition", wq[1], se, 1e-9 * se + 1e-12, "standard error of the weighted mean (Cochran) with unequal weights");
+		std::vector<DataPoint> dsh, dsc;
+		double c2 = std::ldexp(1.0, (int) s.range(0, 8)) * s.sign(), a2 = std::ldexp(1.0, (int) s.range(-6, 6)) * s.sign();
+		for(auto& d : dq)
+		{
+			dsh.push_back(DataPoint(d.value + c2, d.weight));
+			dsc.push_back(DataPoint(d.value * a2, d.weight));
+		}
+		std::vector<double> wsh, wsc;
+		VMUST_RETURN("Weighted_Average", wsh = Weighted_Average(dsh); wsc = Weighted_Average(dsc));
+		VCLOSE(c, "weighted_se_translation", wsh[1], wq[1], 1e-9 * (se + 1e-3) * (1 + std::fabs(c2)), "standard error of the weighted mean must not change under x -> x + " << c2);
+		VCLOSE(c, "weighted_se_scaling", wsc[1], std::fabs(a2) * wq[1], 1e-10 * std::fabs(a2) * (se + 1e-12), "standard error of the weighted mean must scale with |a| under x -> a x");
+		VCLOSE(c, "weighted_mean_translation_unequal", wsh[0], wq[0] + c2, 16 * EPS * (32 + std::fabs(c2)), "weighted mean of shifted data (unequal weights)");
+	}
 }
